@@ -8,6 +8,7 @@ pub mod num;
 pub mod parse;
 pub mod types;
 pub mod vet;
+pub mod fmtgo;
 
 pub use parse::ParseError;
 pub use vet::{VetError, VetReport};
